@@ -183,6 +183,15 @@ def body_sequence(case, ctx):
     p = p.value
     for k, op in enumerate(case["ops"]):
         ctx.label("seq:" + op[0])
+        if op[0] == "sub":
+            # continue with the packed array of a position list (indexing is closed: a packed array again)
+            idx = [t % n for t in op[1]]
+            sub = lib(lambda: p[np.array(idx, dtype=np.int64)])
+            if not sub.ok:
+                raise Violation("sequence:sub-selection-refused", step=k, got=sub.brief())
+            p, a = sub.value, [a[t] for t in idx]
+            n = len(a)
+            continue
         if op[0] == "unpack":
             got = lib(lambda: read_own(p.unpack()))
             exp = a
@@ -207,7 +216,8 @@ def sequence_case(draw, tier):
     case = draw(bit_case(tier, need_n=1))
     op = st.one_of(st.just(["unpack"]), st.tuples(st.just("window"), st.integers(0, 63)).map(list),
                    st.tuples(st.just("int"), st.integers(0, 10**6)).map(list),
-                   st.tuples(st.just("list"), st.lists(st.integers(0, 10**6), min_size=1, max_size=5)).map(list))
+                   st.tuples(st.just("list"), st.lists(st.integers(0, 10**6), min_size=1, max_size=5)).map(list),
+                   st.tuples(st.just("sub"), st.lists(st.integers(0, 10**6), min_size=1, max_size=40)).map(list))
     case["ops"] = draw(st.lists(op, min_size=2, max_size=5))
     return case
 
